@@ -107,7 +107,7 @@ def run_dea(item):
             r3, e3 = ex.dea3(s[0], s[1], s[2])
             if not (abs(res - r3[0]) <= 1e-12 * max(abs(res), abs(r3[0]), 1e-300) or (np.isnan(res) and np.isnan(r3[0]))):
                 probs.append('third term: Dea %r differs from dea3 %r' % (res, r3[0]))
-    return dict(limexp=lim, ev=evs, probs=probs, seq=s[:8])
+    return dict(limexp=lim, req=int(limexp), ev=evs, probs=probs, seq=s[:8])
 
 
 def run_dea_pair(pair):
@@ -184,7 +184,7 @@ def run_eps_long(item):
 def validate_dea(traces):
     d = vlib.run_dir('Trace_Dea-data')
     path = os.path.join(d, 'traces.json')
-    json.dump(dict(traces=[dict(limexp=t['limexp'], ev=t['ev']) for t in traces]), open(path, 'w'))
+    json.dump(dict(traces=[dict(limexp=t['limexp'], ev=t['ev'], **({'req': t['req']} if 'req' in t else {})) for t in traces]), open(path, 'w'))
     cfg = """CONSTANTS
   LimExps = {3}
   CapOnAllConverged = TRUE
